@@ -33,6 +33,7 @@ type c09Scan struct {
 	sectCtr map[string]int
 	edges   map[string]map[string]bool // lock nesting: held -> acquired
 	unknown bool
+	deferred []*ast.FuncLit
 	assigned map[string]string // local identifier -> what it was computed from (size | kill)
 }
 
@@ -170,7 +171,11 @@ func (sc *c09Scan) walk(list []ast.Stmt, fn string, held map[string]bool, sect m
 			}
 			sc.exprEvents(s, fn, held, sect, guard, depth, nil)
 		case *ast.DeferStmt:
-			// defer X.Unlock(): held until the function returns; other deferred code is not on the path
+			// defer X.Unlock(): held until the function returns; a deferred function literal runs at the
+			// end with nothing held by this function's straight-line code
+			if fl, ok := s.Call.Fun.(*ast.FuncLit); ok {
+				sc.deferred = append(sc.deferred, fl)
+			}
 		case *ast.AssignStmt:
 			w := map[ast.Expr]bool{}
 			for _, l := range s.Lhs {
@@ -201,6 +206,9 @@ func (sc *c09Scan) walk(list []ast.Stmt, fn string, held map[string]bool, sect m
 			sc.exprEvents(s, fn, held, sect, guard, depth, w)
 		case *ast.IncDecStmt:
 			sc.exprEvents(s, fn, held, sect, guard, depth, map[ast.Expr]bool{s.X: true})
+			if sel, ok := s.X.(*ast.SelectorExpr); ok && s.Tok == token.DEC {
+				sc.emit("dec:"+sel.Sel.Name, fn, held, sect, guard)
+			}
 		case *ast.IfStmt:
 			if s.Init != nil {
 				sc.walk([]ast.Stmt{s.Init}, fn, held, sect, guard, depth)
@@ -285,7 +293,59 @@ func (sc *c09Scan) walk(list []ast.Stmt, fn string, held map[string]bool, sect m
 		case *ast.ReturnStmt, *ast.DeclStmt:
 			sc.exprEvents(s, fn, held, sect, guard, depth, nil)
 		case *ast.BranchStmt, *ast.EmptyStmt:
-		case *ast.SwitchStmt, *ast.TypeSwitchStmt, *ast.SelectStmt, *ast.LabeledStmt:
+		case *ast.SwitchStmt:
+			if s.Init != nil {
+				sc.walk([]ast.Stmt{s.Init}, fn, held, sect, guard, depth)
+			}
+			if s.Tag != nil {
+				sc.exprEvents(s.Tag, fn, held, sect, guard, depth, nil)
+			}
+			var outs []map[string]bool
+			var outsS []map[string]int
+			hasDefault := false
+			for _, cc := range s.Body.List {
+				cl, ok := cc.(*ast.CaseClause)
+				if !ok {
+					continue
+				}
+				if cl.List == nil {
+					hasDefault = true
+				}
+				for _, e := range cl.List {
+					sc.exprEvents(e, fn, held, sect, guard, depth, nil)
+				}
+				hb, sb := cloneHeld(held), cloneSect(sect)
+				sc.walk(cl.Body, fn, hb, sb, guard, depth)
+				if !terminates(&ast.BlockStmt{List: cl.Body}) {
+					outs, outsS = append(outs, hb), append(outsS, sb)
+				}
+			}
+			if !hasDefault {
+				outs, outsS = append(outs, cloneHeld(held)), append(outsS, cloneSect(sect))
+			}
+			if len(outs) > 0 {
+				for k := range held {
+					delete(held, k)
+				}
+				for k := range outs[0] {
+					all := true
+					for _, o := range outs[1:] {
+						if !o[k] {
+							all = false
+						}
+					}
+					if all {
+						held[k] = true
+						sect[k] = outsS[0][k]
+					}
+				}
+				for k := range sect {
+					if !held[k] {
+						delete(sect, k)
+					}
+				}
+			}
+		case *ast.TypeSwitchStmt, *ast.SelectStmt, *ast.LabeledStmt:
 			sc.unknown = true // shapes this scanner does not follow
 		default:
 			sc.exprEvents(s, fn, held, sect, guard, depth, nil)
@@ -299,8 +359,14 @@ func (sc *c09Scan) scanFunc(name string) []c09Ev {
 		return nil
 	}
 	sc.evs = nil
+	sc.unknown = false
+	sc.deferred = nil
 	sc.assigned = map[string]string{}
 	sc.walk(fd.Body.List, name, map[string]bool{}, map[string]int{}, nil, 0)
+	// deferred function literals: their own paths, marked by the function name + ".defer"
+	for _, fl := range sc.deferred {
+		sc.walk(fl.Body.List, name+".defer", map[string]bool{}, map[string]int{}, nil, 0)
+	}
 	return sc.evs
 }
 
@@ -309,6 +375,15 @@ const (
 	c09Yes = 1
 	c09Unk = 2
 )
+
+// soft: a fact that looks refuted only because a lock operation could not be attributed (lock held in a
+// local variable, statement shapes the scanner does not follow) is "not established", not refuted
+func (sc *c09Scan) soft(v int) int {
+	if v == c09No && sc.unknown {
+		return c09Unk
+	}
+	return v
+}
 
 func tri(found bool, ok bool) int {
 	if !found {
@@ -369,7 +444,7 @@ func c09Facts(dir string) (map[string]int, []string, error) {
 			push = &ev[i]
 		}
 	}
-	facts["signalUnderL"] = tri(sig != nil, sigAll)
+	facts["signalUnderL"] = sc.soft(tri(sig != nil, sigAll))
 	facts["pushBeforeSignal"] = tri(sig != nil && push != nil, sig != nil && push != nil && push.seq < sig.seq)
 
 	// idleTask.Run: Wait only after Size() and workerKill were read under L, inside an if on both
@@ -393,9 +468,9 @@ func c09Facts(dir string) (map[string]int, []string, error) {
 			}
 		}
 	}
-	facts["waitUnderL"] = tri(wait != nil, wait != nil && wait.held["L"])
-	facts["recheckQueueUnderL"] = tri(wait != nil, sizeOK)
-	facts["recheckKillUnderL"] = tri(wait != nil, killOK)
+	facts["waitUnderL"] = sc.soft(tri(wait != nil, wait != nil && wait.held["L"]))
+	facts["recheckQueueUnderL"] = sc.soft(tri(wait != nil, sizeOK))
+	facts["recheckKillUnderL"] = sc.soft(tri(wait != nil, killOK))
 	if wait != nil {
 		gs, gk := false, false
 		for _, g := range wait.guard {
@@ -408,7 +483,9 @@ func c09Facts(dir string) (map[string]int, []string, error) {
 		}
 		switch {
 		case len(wait.guard) == 0:
-			facts["waitGuardedByBoth"] = c09No
+			// no enclosing if: the guard may be an early return / a loop exit before the Wait — the
+			// scanner does not derive dominating conditions: not established (the traces decide)
+			facts["waitGuardedByBoth"] = c09Unk
 		case gs && gk:
 			facts["waitGuardedByBoth"] = c09Yes
 		default:
@@ -487,6 +564,116 @@ func c09Facts(dir string) (map[string]int, []string, error) {
 	facts["killTakenUnderLock"] = tri(decFound, decOK)
 	facts["exitingCountedUnderLock"] = tri(incFound, incOK)
 	facts["exitDecidedWithKillInOneSection"] = tri(incFound, drainOK)
+
+	// worker exit: delete from workerMap and workerExiting-- in ONE workerMapLock section (a SetWorkerCount
+	// deciding in between would count the dying worker as alive)
+	ev = sc.scanFunc("run")
+	var decs, dels []c09Ev
+	for i := range ev {
+		if ev[i].kind == "dec:workerExiting" {
+			decs = append(decs, ev[i])
+		}
+		if strings.HasSuffix(ev[i].kind, ":workerMap") && strings.HasSuffix(ev[i].fn, ".defer") {
+			dels = append(dels, ev[i])
+		}
+	}
+	exitAtomic := len(decs) > 0 && len(dels) > 0
+	for _, d := range decs {
+		same := false
+		for _, m := range dels {
+			if d.held["workerMapLock"] && m.held["workerMapLock"] && d.sect["workerMapLock"] == m.sect["workerMapLock"] {
+				same = true
+			}
+		}
+		if !same {
+			exitAtomic = false
+		}
+	}
+	facts["exitAtomic"] = sc.soft(tri(len(decs) > 0 && len(dels) > 0, exitAtomic))
+
+	// WaitAll: worker map, idle map and queue size read in one section under both locks
+	ev = sc.scanFunc("WaitAll")
+	var wm, wi, wq *c09Ev
+	for i := range ev {
+		switch ev[i].kind {
+		case "read:workerMap":
+			if wm == nil {
+				wm = &ev[i]
+			}
+		case "read:workerIdleMap":
+			if wi == nil {
+				wi = &ev[i]
+			}
+		case "call:Size":
+			if wq == nil {
+				wq = &ev[i]
+			}
+		}
+	}
+	snapOK := wm != nil && wi != nil && wq != nil
+	if snapOK {
+		for _, e := range []*c09Ev{wm, wi, wq} {
+			if !e.held["workerMapLock"] || !e.held["queueLock"] || e.sect["workerMapLock"] != wm.sect["workerMapLock"] ||
+				e.sect["queueLock"] != wm.sect["queueLock"] {
+				snapOK = false
+			}
+		}
+	}
+	facts["waitAllSnapshotOneSection"] = sc.soft(tri(wm != nil && wi != nil && wq != nil, snapOK))
+
+	// JoinAll's sleeping loop broadcasts on every iteration (not only on some branch)
+	facts["joinAllLoopBroadcasts"] = c09Unk
+	if fd, ok := sc.funcs["JoinAll"]; ok && fd.Body != nil {
+		containsBroadcast := func(n ast.Node) bool {
+			hit := false
+			ast.Inspect(n, func(m ast.Node) bool {
+				if c, ok := m.(*ast.CallExpr); ok {
+					if sel, ok := c.Fun.(*ast.SelectorExpr); ok {
+						if sel.Sel.Name == "Broadcast" {
+							hit = true
+						} else if h, ok := sc.funcs[sel.Sel.Name]; ok && h.Body != nil && h != fd {
+							ast.Inspect(h.Body, func(x ast.Node) bool {
+								if c2, ok := x.(*ast.CallExpr); ok {
+									if s2, ok := c2.Fun.(*ast.SelectorExpr); ok && s2.Sel.Name == "Broadcast" {
+										hit = true
+									}
+								}
+								return true
+							})
+						}
+					}
+				}
+				return true
+			})
+			return hit
+		}
+		ast.Inspect(fd.Body, func(n ast.Node) bool {
+			f, ok := n.(*ast.ForStmt)
+			if !ok {
+				return true
+			}
+			top, nested := false, false
+			for _, st := range f.Body.List {
+				switch st.(type) {
+				case *ast.ExprStmt, *ast.AssignStmt:
+					if containsBroadcast(st) {
+						top = true
+					}
+				default:
+					if containsBroadcast(st) {
+						nested = true
+					}
+				}
+			}
+			switch {
+			case top:
+				facts["joinAllLoopBroadcasts"] = c09Yes
+			case nested:
+				facts["joinAllLoopBroadcasts"] = c09No
+			}
+			return false
+		})
+	}
 
 	// JoinAll keeps its request up inside its loop; the polling loops of SetWorkerCount look at workerKill
 	// (they yield to a JoinAll instead of waiting for workers that will never come)
@@ -630,7 +817,7 @@ func c09Tool(args []string) int {
 	keys := []string{"signalUnderL", "pushBeforeSignal", "waitUnderL", "recheckQueueUnderL", "recheckKillUnderL", "waitGuardedByBoth",
 		"swcOneSection", "swcCountsExiting", "swcFirstBroadcastUnderL", "killTakenUnderLock", "exitingCountedUnderLock",
 		"exitDecidedWithKillInOneSection", "workerMapsUnderLock", "lockOrderAcyclic", "joinAllKeepsRequestUp",
-		"swcLoopsYieldToJoinAll"}
+		"swcLoopsYieldToJoinAll", "exitAtomic", "waitAllSnapshotOneSection", "joinAllLoopBroadcasts"}
 	var sb strings.Builder
 	sb.WriteString("/-! GENERATED by `harness C09 -tool skeleton` from engine/pool/threadpool.go — do not edit.\n")
 	sb.WriteString("Synchronisation skeleton facts, three-valued: 1 = established, 0 = REFUTED, 2 = not established. -/\n")
